@@ -43,6 +43,8 @@ pub struct Wire {
     pub write_zero: bool,
     /// answer Ok(0) to every non-empty write from the (n+1)-th write call on
     pub write_zero_after: Option<u64>,
+    /// how often the Ok(0) answer was really given
+    pub zero_answers: u64,
     /// what poll_close answers (the library need not call it at all): 0 = Ok, 1 = Err, 2 = Pending once
     pub close_mode: u8,
     pub close_polls: u64,
@@ -86,6 +88,7 @@ impl Wire {
             read_err_once: None,
             write_zero: false,
             write_zero_after: None,
+            zero_answers: 0,
             close_mode: 0,
             close_polls: 0,
             read_waker: None,
@@ -193,6 +196,9 @@ impl MockWrite {
             }
         }
         if buf.is_empty() || w.write_zero {
+            if !buf.is_empty() {
+                w.zero_answers += 1;
+            }
             return Poll::Ready(Ok(0));
         }
         if let Some(b) = w.hard_budget {
